@@ -202,6 +202,8 @@ type input struct {
 	MsgKind     int    `json:"msg_kind"` // tecdsa: which protocol message type carries the claim
 	// a history on one shared validator / receiving state (hist.go) instead of one message
 	Hist *histInput `json:"hist,omitempty"`
+	// admission after the production result pipeline on one group object (pipe.go)
+	Pipe *pipeInput `json:"pipe,omitempty"`
 }
 
 const (
@@ -697,7 +699,9 @@ func main() {
 			fmt.Fprintln(os.Stderr, err)
 			os.Exit(2)
 		}
-		if in.Hist != nil {
+		if in.Pipe != nil {
+			runPipe(*in.Pipe, em, "replay")
+		} else if in.Hist != nil {
 			runHist(*in.Hist, em, "replay")
 		} else {
 			run(in, em, "replay")
@@ -906,6 +910,7 @@ func main() {
 
 	// --- the validator has no memory: histories on one shared validator / receiving state
 	histories(o, rng.Fork("histories"), em)
+	pipelines(o, rng.Fork("pipelines"), em)
 
 	em.Close("a case is one message delivered to one protocol step (one of the 30 call sites of "+
 		"shouldAcceptMessage / IsValidMembership) in a freshly built receiver, or one history of validations / "+
